@@ -3,7 +3,8 @@
 From DV Require Import Base.Prelude Model.NameM Model.ZoneTextM.
 From DV Require Import Proofs.ZoneTextBase Proofs.ZoneTextInv Proofs.ZoneTextRespell Proofs.ZoneTextLex
   Proofs.ZoneTextAcc Proofs.ZoneTextRecord Proofs.ZoneTextSweep Proofs.ZoneTextRoundtrip Proofs.ZoneTextNames
-  Proofs.ZoneTextParens Proofs.ZoneTextRead Proofs.ZoneTextGenerate Proofs.ZoneTextWf.
+  Proofs.ZoneTextParens Proofs.ZoneTextRead Proofs.ZoneTextGenerate Proofs.ZoneTextWf
+  Proofs.ZoneTextRdata.
 From DV Require Import Proofs.NameValid Proofs.NameText.
 From Coq Require Import Permutation.
 Open Scope Z_scope.
@@ -59,6 +60,27 @@ Theorem origin_roundtrip : forall zo : name,
   Valid zo /\ AllBytes zo /\ is_absolute zo = true -> origin_ok zo.
 Proof. exact origin_ok_valid. Qed.
 Print Assumptions origin_roundtrip.
+
+(* The per-record premise of zone_roundtrip holds for every record of a modelled field-list type
+   (A NS CNAME SOA PTR MX TXT KEY AAAA SRV DNAME NSEC) whose fields are in range: domain names
+   valid and stored in normal form (relative = under the origin, absolute = outside it in a
+   relativized zone), integers and TTLs in range, IPv4 addresses as inet_aton accepts them,
+   character-strings of at most 255 arbitrary octets (the _escapify / unescape_to_bytes round
+   trip is proved here), verbatim tokens free of delimiters and backslashes. *)
+Theorem rdata_roundtrip_fields : forall (c : cfg) (st : style) (zo : name),
+  Valid zo /\ AllBytes zo /\ is_absolute zo = true -> st_origin st = None ->
+  forall ty m ks rd,
+  tbl_by_code type_table ty = Some (m, ks) -> ty <> tRRSIG ->
+  rdata_fits (c_rel c) zo ks rd ->
+  rdata_ok c st zo ty rd (rd_toks rd).
+Proof. exact rdata_ok_fits_proof. Qed.
+Print Assumptions rdata_roundtrip_fields.
+
+(* every character-string survives _escapify followed by the tokenizer's unescape_to_bytes *)
+Theorem quoted_string_roundtrip : forall x, Forall is_octet x ->
+  tok_unescape (escapify_q x) = Ok x /\ q_clean (escapify_q x) = true.
+Proof. intros x H. split; [apply unescape_escapify|apply escapify_q_clean]; exact H. Qed.
+Print Assumptions quoted_string_roundtrip.
 
 (* The well-formedness hypothesis does not depend on the order of the names: `zone_wf` (pairwise
    different names + a condition on each name alone) implies `nodes_wf` for every permutation, in
